@@ -12,6 +12,7 @@ C16 — property theorems (curve points, lengths and closest-parameter queries a
   T_C16_segment_metric     the linear interpolant with chord-length parameters is such a curve (one knot interval)
   T_C16_through            the linear interpolant passes through its defining points
   T_C16_argmin             the discrete closest parameter is the first minimum of the distance over all points
+  T_C16_closest_linear     the closest parameter of the linear interpolant (exact projection) beats every point of every segment
   T_C16_edge               a curve edge's written points are the discretisation minus its ends; the polyline through
                            vertex 1, the written points and vertex 2 is the curve length between the two parameters
 Spline interpolation and scipy.optimize.minimize are oracles: validator checks only (see notes/C16.md).
@@ -289,6 +290,34 @@ theorem T_C16_argmin (dist : α → Rat) (pts : List α) (hne : pts ≠ []) :
 
 example : closestParam (fun (x : Rat) => (x - 3) * (x - 3)) [0, 2, 4, 5] = 1 := by
   norm_num [closestParam, argmin, argminAux]
+
+/-- `LinearInterpolatedCurve.get_closest_param` (repaired: exact projection): the chosen segment exists and its clipped
+    projection point is at least as close to the query as *every* point of *every* segment of the polyline -/
+theorem T_C16_closest_linear (ps : List V) (q : V) (hlen : 2 ≤ ps.length) :
+    closestSeg ps q < (segments ps).length ∧
+    ∀ (j : Nat) (hj : j < (segments ps).length) (lam : Rat), 0 ≤ lam → lam ≤ 1 →
+      ((segments ps).map (fun s => segDist2 s.1 s.2 q)).getD (closestSeg ps q) 0
+        ≤ dist2 (lerpV (segments ps)[j].1 (segments ps)[j].2 lam) q := by
+  have hne : segments ps ≠ [] := by
+    match ps, hlen with
+    | _ :: _ :: _, _ => simp [segments]
+  obtain ⟨h1, h2⟩ := T_C16_argmin (fun s : V × V => segDist2 s.1 s.2 q) (segments ps) hne
+  refine ⟨h1, ?_⟩
+  intro j hj lam h0 hl
+  have := (h2 j hj).1
+  unfold closestSeg
+  unfold closestParam at this
+  refine le_trans this ?_
+  have hget : ((segments ps).map (fun s => segDist2 s.1 s.2 q)).getD j 0
+      = segDist2 (segments ps)[j].1 (segments ps)[j].2 q := by
+    simp [List.getD_eq_getElem?_getD, hj]
+  rw [hget]
+  exact seg_opt _ _ q lam h0 hl
+
+example : closestSeg [⟨0, 0, 0⟩, ⟨0, 1, 0⟩, ⟨2, 1, 0⟩] ⟨1, 3, 0⟩ = 1 ∧
+    closestParamL [0, 1 / 3, 1] [⟨0, 0, 0⟩, ⟨0, 1, 0⟩, ⟨2, 1, 0⟩] ⟨1, 3, 0⟩ = 2 / 3 ∧
+    closestParamL [0, 1 / 3, 1] [⟨0, 0, 0⟩, ⟨0, 1, 0⟩, ⟨2, 1, 0⟩] ⟨5, 0, 0⟩ = 1 := by
+  refine ⟨?_, ?_, ?_⟩ <;> decide +kernel
 
 /-! ### curve edges -/
 
